@@ -150,6 +150,8 @@ def st_op(inv: Inventory, kinds=None, descriptor_ops=True, context_ops=True, mul
         classes = sorted({c for _, c in inv.context_descriptors})
         opts.append(st.tuples(st.just('ctx_update'), ctx_handles,
                               st.sampled_from(classes).flatmap(_state_spec), st.one_of(st.none(), assoc), IFACE).map(list))
+        one = st.tuples(ctx_handles, st.sampled_from(classes).flatmap(_state_spec), st.one_of(st.none(), assoc)).map(list)
+        opts.append(st.tuples(st.just('ctx_multi'), st.lists(one, min_size=2, max_size=3)).map(list))
         if inv.location_descriptors:
             opts.append(st.tuples(st.just('set_location'), st_location()).map(list))
     if descriptor_ops:
@@ -357,8 +359,8 @@ class Interp:
     def _op_ctx_update(self, op, info):
         _, shandle, spec, assoc, iface = op
         state = self.mdib.context_states.handle.get_one(shandle, allow_none=True)
-        if state is None or T.cls_name(type(state)) != spec['cls']:
-            raise Skip
+        if state is None:
+            raise Skip  # (members of the spec that the state's class does not have are ignored by _apply)
         with self._tx('context') as mgr:
             if iface == 'classic':
                 st_ = mgr.get_context_state(shandle)
@@ -373,6 +375,23 @@ class Interp:
                     self._set_assoc(mgr, st_, assoc)
                 mgr.write_entity(ent, [shandle])
         info['touched'].add(shandle)
+
+    def _op_ctx_multi(self, op, info):
+        """Several context states (possibly of one descriptor) updated in one transaction (classic interface)."""
+        todo = []
+        for shandle, spec, assoc in op[1]:
+            state = self.mdib.context_states.handle.get_one(shandle, allow_none=True)
+            if state is not None and shandle not in [t[0] for t in todo]:
+                todo.append((shandle, spec, assoc))
+        if len(todo) < 2:
+            raise Skip
+        with self._tx('context') as mgr:
+            for shandle, spec, assoc in todo:
+                st_ = mgr.get_context_state(shandle)
+                self._apply(st_, spec, PROTECTED)
+                if assoc:
+                    self._set_assoc(mgr, st_, assoc)
+                info['touched'].add(shandle)
 
     def _op_set_location(self, op, info):
         from sdc11073.location import SdcLocation
